@@ -26,7 +26,11 @@ import numpy as np
 
 def _preserves_shape(target, scaling):
   target_shape = np.shape(target)
-  return target_shape == np.broadcast_shapes(target_shape, scaling.shape)
+  try:
+    return target_shape == np.broadcast_shapes(target_shape, scaling.shape)
+  except ValueError:
+    # shapes that cannot be broadcast against `scaling` are left unfiltered.
+    return False
 
 
 def _make_filter_fn(scaling, name=None):
